@@ -148,6 +148,7 @@ type Res struct {
 	T     int64    `json:"t,omitempty"` // expiration instant (UnixNano, 0 none) / TTL / Size / Count / duration
 	Fn    []FnCall `json:"fn,omitempty"`
 	Ev    []KV     `json:"ev,omitempty"`  // evicted callbacks fired by the calling thread during the call
+	EvB   int      `json:"evb,omitempty"` // how many of them went to the adapter's SECOND callback
 	Vis   []KV     `json:"vis,omitempty"` // visitor calls in order (Range) or result map sorted (Items)
 	C0    int      `json:"c0,omitempty"`  // Count probe before (sequential engines only; -1 = not probed)
 	C1    int      `json:"c1,omitempty"`  // Count probe after
@@ -188,8 +189,6 @@ func (o Op) String() string {
 		x := ""
 		if o.N > 0 {
 			x = fmt.Sprintf("stop@%d", o.N)
-		} else if o.N < 0 {
-			x = "nil visitor"
 		}
 		for _, mu := range o.Muts {
 			c := ""
